@@ -788,7 +788,7 @@ def part_cfg(ctx, n):
         #  dupline      : the new lines follow the first, EARLIER line with the same stripped text as the last list line;
         #  no final nl  : the last list line was the unterminated last line and the first requirement is glued to it.
         inline_seen = inline and not m["dry"] and i not in not_inline_pred
-        if inline and m["dry"] and m["res"]["names"] == [] and len(ref_c) >= 2 and i not in set(bad["cfg_model_ok"]):
+        if inline and m["dry"] and m["res"]["names"] == [] and len(m["ref_names"]) >= 2 and i not in set(bad["cfg_model_ok"]):
             inline_seen = True    # dry run: nothing on disk to compare; the class predicts a store without names, and the model agrees
         dup_seen = (i in dup) and not m["dry"] and i not in not_dup_pred
         glued_seen = (info["kref"] is not None and info["kref"] == len(lines) - 1 and not m["dry"]
@@ -797,7 +797,7 @@ def part_cfg(ctx, n):
             "kf_setupcfg_no_final_newline" if glued_seen else None
         if impl_c != ref_c:
             # predicted by the inline class: a value with several entries on the key line leaves the store without any name
-            pred = inline and m["res"]["names"] == [] and len(ref_c) >= 2
+            pred = inline and m["res"]["names"] == [] and len(m["ref_names"]) >= 2
             ctx.violation("kf_setupcfg_inline_list" if pred else "c14_cfg_names_seen",
                           f"setup.cfg {text!r}: the store holds names {impl_c}, the file declares {ref_c}", replay)
         if m["res"]["kind"] == 1:
